@@ -268,7 +268,7 @@ def finish(prop, tier, verif_seed, results, extra, det, known, pools, t0, shrink
             print(f"  minimised in {nexec} executions: {trace}")
             print(f"VIOLATION property={prop} replay={path}")
     if extra.get("harness_errors"):
-        print(f"HARNESS-ERROR: {extra['harness_errors']} enumerated kill points could not be executed")
+        print(f"HARNESS-ERROR: {extra['harness_errors']} cases of the enumeration / fidelity phases could not be executed or disagreed")
         if rc == 0:
             rc = 2
     if harness or det["diverged"]:
